@@ -137,6 +137,66 @@ func c09CloseOnce(c *Ctx, r *Report, rule string) {
 		}
 		n++
 		r.check(k == 1, rule, fname(fn), "one close", c.pos(fn.Pos()), "exactly one close", fmt.Sprintf("%d close operations in Close", k))
+		// Close is a method of net.Conn: whoever is given the connection may call it - a handler, or a library a
+		// handler passes the connection to (go-socks5's ServeConn defers conn.Close()) - and the server calls it when
+		// the handler returns. The second call must find the work done: the close of the channel is reached only
+		// through a test-and-set (atomic CompareAndSwap/Swap, sync.Once) or after a receive from the channel found it open
+		for g := range c.reachSync(fn) {
+			if g.Pkg != fn.Pkg {
+				continue
+			}
+			for _, ci := range callsIn(g) {
+				if calleeID(ci) != "builtin close" || chanID(ci.Common().Args[0]) != "field layer4.packetConn.closed" {
+					continue
+				}
+				n++
+				guarded := false
+				if g != fn && g.Parent() != nil {
+					// the body of a function value: handed to (*sync.Once).Do
+					for _, pci := range callsIn(g.Parent()) {
+						if calleeID(pci) == "(*sync.Once).Do" {
+							guarded = true
+						}
+					}
+				}
+				for _, cd := range edgeConds(ci.Block()) {
+					var onceOnly func(v ssa.Value, truth bool, d int) bool
+					onceOnly = func(v ssa.Value, truth bool, d int) bool {
+						if d > 3 {
+							return false
+						}
+						switch x := v.(type) {
+						case *ssa.Call:
+							id := calleeID(x)
+							if strings.HasPrefix(id, "sync/atomic.CompareAndSwap") || strings.HasSuffix(id, ").CompareAndSwap") {
+								return truth // the one caller that changed the flag
+							}
+							if strings.HasPrefix(id, "sync/atomic.Swap") || strings.HasSuffix(id, ").Swap") {
+								return !truth // the old value was false
+							}
+						case *ssa.UnOp:
+							if x.Op == token.NOT {
+								return onceOnly(x.X, !truth, d+1)
+							}
+						case *ssa.BinOp:
+							if k, isK := x.Y.(*ssa.Const); isK && k.Value != nil && (x.Op == token.EQL || x.Op == token.NEQ) {
+								if bv, isB := constBool(k); isB {
+									if (x.Op == token.EQL) == bv {
+										return onceOnly(x.X, truth, d+1)
+									}
+									return onceOnly(x.X, !truth, d+1)
+								}
+							}
+						}
+						return false
+					}
+					if onceOnly(cd.V, cd.Truth, 0) {
+						guarded = true
+					}
+				}
+				r.check(guarded, rule, fname(fn), "second Close", c.ipos(ci), "the channel is closed by the first Close only", "Close closes the association's closed channel unconditionally: a handler (or a library it hands the connection to - the socks5 handler's ServeConn defers conn.Close()) that closes the connection makes the server's own deferred conn.Close() the second one - 'close of closed channel' in the connection goroutine ends the whole server process; one datagram is enough")
+			}
+		}
 	}
 	if n == 0 {
 		r.bad(rule, "layer4.(*packetConn).Close", "exists", "-", "no close of the association's channel found")
@@ -222,7 +282,7 @@ func c10RobinPerInstance(c *Ctx, r *Report, rule string) {
 			good := false
 			detail := ""
 			if base, sn, f, ok := fieldAddr(a); ok {
-				if pr, isP := base.(*ssa.Parameter); isP && len(g.Params) > 0 && pr == g.Params[0] && g == fn {
+				if pr, isP := base.(*ssa.Parameter); isP && len(g.Params) > 0 && pr == g.Params[0] && (g == fn || c10CalledOnReceiverOf(c, g, fn)) {
 					good = true
 				} else {
 					detail = "the position is " + sn + "." + f + " of another object"
@@ -238,6 +298,23 @@ func c10RobinPerInstance(c *Ctx, r *Report, rule string) {
 	if n == 0 {
 		r.bad(rule, fnName, "position", c.pos(fn.Pos()), "undecided: no atomic operation on a position found in Select")
 	}
+}
+
+// c10CalledOnReceiverOf: g is a method of sel's receiver type and every call of it is made by sel on its own receiver.
+func c10CalledOnReceiverOf(c *Ctx, g, sel *ssa.Function) bool {
+	if g.Signature.Recv() == nil || sel.Signature.Recv() == nil || !types.Identical(g.Signature.Recv().Type(), sel.Signature.Recv().Type()) {
+		return false
+	}
+	sites, escapes := c.callSitesOf(g)
+	if escapes || len(sites) == 0 {
+		return false
+	}
+	for _, cs := range sites {
+		if cs.Parent() != sel || len(cs.Common().Args) == 0 || cs.Common().Args[0] != ssa.Value(sel.Params[0]) {
+			return false
+		}
+	}
+	return true
 }
 
 // c11ActiveCheckerStarts: active health checks run exactly when they are configured. The start of the checker in
@@ -1398,6 +1475,62 @@ func c08AfterHandOff(c *Ctx, r *Report, rule string) {
 	if n == 0 {
 		r.ok(rule, anchor, "read of bytesRead", c.pos(fn.Pos()), "handle does not read the counter")
 	}
+	// the context of the connection: handlers that stay on the connection after the hand-off wait on it (the
+	// throttle's token and latency waits) - a context that handle derives, stores into the connection and cancels
+	// when it returns is cancelled under the consumer's hands
+	for _, b := range fn.Blocks {
+		for _, in := range b.Instrs {
+			call, ok := in.(*ssa.Call)
+			if !ok {
+				continue
+			}
+			switch calleeID(call) {
+			case "context.WithCancel", "context.WithTimeout", "context.WithDeadline", "context.WithCancelCause":
+			default:
+				continue
+			}
+			var ctxV, cancelV ssa.Value
+			for _, ref := range *call.Referrers() {
+				if ex, ok := ref.(*ssa.Extract); ok {
+					if ex.Index == 0 {
+						ctxV = ex
+					} else {
+						cancelV = ex
+					}
+				}
+			}
+			if ctxV == nil || cancelV == nil {
+				continue
+			}
+			stored := false
+			for _, ref := range *ctxV.Referrers() {
+				if st, ok := ref.(*ssa.Store); ok {
+					if _, sn, f, ok := fieldAddr(st.Addr); ok && sn == "layer4.Connection" && f == "Context" {
+						stored = true
+					}
+				}
+			}
+			if !stored {
+				continue
+			}
+			for _, ref := range *cancelV.Referrers() {
+				ci, ok := ref.(ssa.CallInstruction)
+				if !ok || ci.Common().Value != cancelV {
+					continue
+				}
+				guarded := false
+				for _, cd := range edgeConds(ref.Block()) {
+					if isHijackTest(cd.V, 0) && !cd.Truth {
+						guarded = true
+					}
+				}
+				if _, isDefer := ref.(*ssa.Defer); isDefer {
+					guarded = false // runs when handle returns, whatever the result was
+				}
+				r.check(guarded, rule, anchor, "cancel of the connection's context", c.ipos(ref), "only where the connection was not handed off", "handle stores a cancellable context into the connection and cancels it when it returns - also after the hand-off to the wrapped listener: every read of a handed-off connection that waits on that context (a throttle handler in the routes) then fails with 'context canceled' and the consumer gets none of the client's bytes")
+			}
+		}
+	}
 }
 
 // c09IdleTimerDrained: Read re-arms the idle timer of the association each time it starts waiting. Under the timer
@@ -1833,7 +1966,32 @@ func c18BoundsCompared(c *Ctx, r *Report, rule string) {
 							}
 							break
 						}
-						if call, ok := v.(*ssa.Call); ok && calleeID(call) == "builtin len" {
+						isLen := func(v ssa.Value) bool {
+							for {
+								if cv, ok := v.(*ssa.Convert); ok {
+									v = cv.X
+									continue
+								}
+								break
+							}
+							call, ok := v.(*ssa.Call)
+							return ok && calleeID(call) == "builtin len"
+						}
+						lenValued := isLen(v)
+						if pr, isP := v.(*ssa.Parameter); isP && !lenValued && g != fn {
+							// a helper's parameter that is a length at every call
+							if sites, escapes := c.callSitesOf(g); !escapes && len(sites) > 0 {
+								lenValued = true
+								for _, cs := range sites {
+									for i, gp := range g.Params {
+										if gp == pr && (i >= len(cs.Common().Args) || !isLen(cs.Common().Args[i])) {
+											lenValued = false
+										}
+									}
+								}
+							}
+						}
+						if lenValued {
 							seen[k] = true
 							// `len(src) < Min-1` style: also the neighbours for strict/non-strict spellings
 							seen[k+1], seen[k-1] = true, true
@@ -2038,8 +2196,11 @@ func c11EveryPeerProbed(c *Ctx, r *Report, rule string) {
 				if cal == nil {
 					continue
 				}
-				if cal != probe && !(cal.Parent() == g && c.reachSync(cal)[probe]) {
+				if cal != probe && !(cal.Pkg == fn.Pkg && c.reachSync(cal)[probe]) {
 					continue
+				}
+				if cal != probe && cal.Parent() == nil {
+					scan(cal) // a helper that runs the probes: its own conditions are judged as well
 				}
 				n++
 				var onPeer []string
@@ -2073,6 +2234,57 @@ func c11EveryPeerProbed(c *Ctx, r *Report, rule string) {
 					}
 					walk(cd.V, 0)
 				}
+				if cal == probe && len(ci.Common().Args) >= 2 {
+					// the peer probed is an element of an upstream's own list of peers, not of a list put together here
+					// (a list from which entries were left out leaves peers unprobed, healthy for ever)
+					var fromPeers func(v ssa.Value, depth int) (bool, string)
+					fromPeers = func(v ssa.Value, depth int) (bool, string) {
+						ok, why := false, ""
+						for _, o := range origins(v, sliceOpts{}) {
+							switch {
+							case o.Kind == "field" && strings.HasSuffix(o.Desc, "Upstream.peers"):
+								ok = true
+							case o.Kind == "call" && o.Desc == "builtin append":
+								why = "a list built with append"
+							case o.Kind == "param" && depth < 3:
+								pr := o.V.(*ssa.Parameter)
+								var argLists [][]ssa.Value
+								if par := pr.Parent().Parent(); par != nil {
+									// a closure called or started where it is made: the arguments of that call
+									for _, pb := range par.Blocks {
+										for _, pin := range pb.Instrs {
+											if pci, isCI := pin.(ssa.CallInstruction); isCI {
+												if mc, isMC := pci.Common().Value.(*ssa.MakeClosure); isMC && mc.Fn == ssa.Value(pr.Parent()) {
+													argLists = append(argLists, pci.Common().Args)
+												}
+											}
+										}
+									}
+								} else if sites, escapes := c.callSitesOf(pr.Parent()); !escapes {
+									for _, cs := range sites {
+										argLists = append(argLists, cs.Common().Args)
+									}
+								}
+								for _, al := range argLists {
+									for i, gp := range pr.Parent().Params {
+										if gp == pr && i < len(al) {
+											if k, w := fromPeers(al[i], depth+1); k {
+												ok = true
+											} else if w != "" {
+												why = w
+											}
+										}
+									}
+								}
+							}
+						}
+						return ok && why == "", why
+					}
+					good, why := fromPeers(ci.Common().Args[1], 0)
+					if !good && why != "" {
+						r.bad(rule, fname(fn), fmt.Sprintf("probe#%d list", n), c.ipos(ci), "the peers probed are taken from "+why+", not from the upstream's own list: a peer left out of it (a duplicate by some key, say) is never checked, keeps its health flag, and stays in rotation while its backend is down")
+					}
+				}
 				r.check(len(onPeer) == 0, rule, fname(fn), fmt.Sprintf("probe#%d", n), c.ipos(ci), "every peer is probed", "the probe of a peer is started only under a condition on "+strings.Join(dedup(onPeer), ", ")+": a peer in that state is not checked, keeps its health flag, and stays in rotation while it refuses new connections")
 			}
 		}
@@ -2080,5 +2292,224 @@ func c11EveryPeerProbed(c *Ctx, r *Report, rule string) {
 	scan(fn)
 	if n == 0 {
 		r.bad(rule, fname(fn), "probes", c.pos(fn.Pos()), "undecided: no start of a probe found")
+	}
+}
+
+// c16ConstructorsFresh: caddy builds every module instance with the New function of its ModuleInfo and then decodes
+// the instance's JSON into it. encoding/json decodes a list into the storage the field already has (it truncates and
+// appends), and a map into the map that is there: a constructor that hands out a package-level list, map or object
+// makes every instance decode into the same storage - one handler's configuration becomes the default of the next.
+func c16ConstructorsFresh(c *Ctx, r *Report, rule string, only string) {
+	floor := 30
+	if only != "" {
+		floor = 1
+	}
+	r.rule(rule, "module constructors (the New function of every CaddyModule): the instance returned is freshly allocated and none of its fields of reference type (slice, map, pointer, channel, function, interface) is set from a package-level variable - instances share no storage that the JSON decoder or Provision writes", floor)
+	n := 0
+	for _, fn := range c.Funcs {
+		if fn.Name() != "CaddyModule" || fn.Signature.Recv() == nil || fn.Pkg == nil || len(fn.Blocks) == 0 {
+			continue
+		}
+		if only != "" && !strings.Contains(fname(fn), only) {
+			continue
+		}
+		// the function stored into the New field of the result
+		var ctors []*ssa.Function
+		for _, b := range fn.Blocks {
+			for _, in := range b.Instrs {
+				st, ok := in.(*ssa.Store)
+				if !ok {
+					continue
+				}
+				if _, sn, f, ok := fieldAddr(st.Addr); !ok || !strings.HasSuffix(sn, ".ModuleInfo") || f != "New" {
+					continue
+				}
+				switch v := st.Val.(type) {
+				case *ssa.Function:
+					ctors = append(ctors, v)
+				case *ssa.MakeClosure:
+					if f, ok := v.Fn.(*ssa.Function); ok {
+						ctors = append(ctors, f)
+					}
+				}
+			}
+		}
+		for _, ctor := range ctors {
+			n++
+			var bad []string
+			for g := range c.reachSync(ctor) {
+				if g.Pkg != fn.Pkg {
+					continue
+				}
+				for _, b := range g.Blocks {
+					for _, in := range b.Instrs {
+						st, ok := in.(*ssa.Store)
+						if !ok {
+							continue
+						}
+						_, sn, f, ok := fieldAddr(st.Addr)
+						if !ok {
+							continue
+						}
+						switch st.Val.Type().Underlying().(type) {
+						case *types.Slice, *types.Map, *types.Pointer, *types.Chan, *types.Signature, *types.Interface:
+						default:
+							continue
+						}
+						for _, o := range origins(st.Val, sliceOpts{}) {
+							if o.Kind == "global" {
+								bad = append(bad, fmt.Sprintf("%s.%s is set from the package-level variable %s", sn, f, o.Desc))
+							}
+						}
+					}
+				}
+				for _, ret := range returnsOf(g) {
+					if g != ctor {
+						continue
+					}
+					for _, res := range ret.Results {
+						for _, o := range origins(res, sliceOpts{}) {
+							if o.Kind == "global" {
+								bad = append(bad, "the instance returned is the package-level variable "+o.Desc)
+							}
+						}
+					}
+				}
+			}
+			r.check(len(bad) == 0, rule, fname(fn), "New", c.pos(ctor.Pos()), "a fresh instance sharing nothing", strings.Join(dedup(bad), "; ")+": caddy decodes each instance's JSON into the value New returns, and a list is decoded into the storage the field already has - the configuration of one instance overwrites the default that the next instance starts from (and the instances race on it)")
+		}
+	}
+	if n < floor {
+		r.bad(rule, "modules", "constructors", "-", fmt.Sprintf("only %d module constructors found", n))
+	}
+}
+
+// c14KeyDirection: which quarter of an OpenVPN static key signs a control message is fixed by the key direction
+// (openvpn crypto.c, key_direction_state_init: bidirectional - both ends use key 0; normal - the server sends with
+// key 0 and receives with key 1; inverse - the other way round; a key is 64 cipher bytes followed by 64 HMAC bytes, so
+// the HMAC bytes of key k are the quarter 2k+1 and its cipher bytes the quarter 2k). The matcher is the server's end:
+// a client's message is checked with the key the server receives with.
+func c14KeyDirection(c *Ctx, r *Report, rule string) {
+	r.rule(rule, "openvpn static key (evaluation of the StaticKey accessors for every key direction): the client's HMAC bytes are the quarter 3 of the key in the normal direction and the quarter 1 in the inverse and the bidirectional one, the server's the quarter 1 except in the inverse direction (3); the client encrypts with the quarter 2 (inverse: 0) and decrypts with the quarter 0 (inverse: 2)", 14)
+	type want struct {
+		fn            string
+		inverse, bidi bool
+		quarter       int64
+	}
+	var table []want
+	for _, d := range []struct {
+		inv, bidi    bool
+		cAuth, sAuth int64
+		cEnc, cDec   int64
+		checkCrypt   bool
+	}{
+		{false, false, 3, 1, 2, 0, true},
+		{true, false, 1, 3, 0, 2, true},
+		{false, true, 1, 1, 2, 0, false},
+		{true, true, 1, 1, 0, 2, false},
+	} {
+		table = append(table, want{"GetClientAuthBytes", d.inv, d.bidi, d.cAuth}, want{"GetServerAuthBytes", d.inv, d.bidi, d.sAuth})
+		if d.checkCrypt {
+			table = append(table, want{"GetClientEncryptBytes", d.inv, d.bidi, d.cEnc}, want{"GetClientDecryptBytes", d.inv, d.bidi, d.cDec},
+				want{"GetServerEncryptBytes", d.inv, d.bidi, d.cDec}, want{"GetServerDecryptBytes", d.inv, d.bidi, d.cEnc})
+		}
+	}
+	for _, w := range table {
+		fnName := "modules/l4openvpn.(*StaticKey)." + w.fn
+		fn := c.Fn(fnName)
+		key := fmt.Sprintf("inverse=%v bidi=%v", w.inverse, w.bidi)
+		if fn == nil {
+			r.bad(rule, fnName, key, "-", "function not found")
+			continue
+		}
+		sc := &Scenario{Name: key, MaxVisit: 8, MaxPaths: 200,
+			Params: map[string]SV{"recv": symRef("sk", false)},
+			Heap:   map[string]SV{"sk.Inverse": symBool(w.inverse), "sk.Bidi": symBool(w.bidi), "sk.KeyBytes": symSlice("key", 256)},
+			Inline: func(f *ssa.Function) bool { return f.Pkg == fn.Pkg && len(f.Blocks) > 0 },
+		}
+		paths, err := evalPaths(fn, sc)
+		if err != nil || len(paths) != 1 || paths[0].Outcome != "return" || len(paths[0].Ret) != 1 {
+			r.bad(rule, fnName, key, c.pos(fn.Pos()), fmt.Sprintf("undecided (%d paths, %v)", len(paths), err))
+			continue
+		}
+		got := paths[0].Ret[0]
+		base, lo := sliceBase(got.Desc)
+		ln := int64(-1)
+		if got.Len != nil && got.Len.Known {
+			ln = got.Len.N
+		}
+		r.check(base == "key" && lo == 64*w.quarter && ln == 64, rule, fnName, key, c.pos(fn.Pos()), fmt.Sprintf("key[%d:%d]", 64*w.quarter, 64*w.quarter+64),
+			fmt.Sprintf("returns %s (length %d), the key direction says key[%d:%d]: control messages of genuine peers fail the HMAC check (and those made with the other half pass it) - the matcher's verdict for tls-auth/tls-crypt clients is wrong in this direction", got.Desc, ln, 64*w.quarter, 64*w.quarter+64))
+	}
+}
+
+// c15OptionalModuleLoaded: a field that holds one optional module as raw JSON (json.RawMessage) is empty when the
+// configuration does not name a module. caddy's LoadModule on an empty message fails ("unexpected end of JSON
+// input"), so a Provision that loads such a field does so only where it has found the field non-empty - otherwise
+// every configuration that leaves the module out (and relies on the documented default) fails to provision.
+func c15OptionalModuleLoaded(c *Ctx, r *Report, rule string) {
+	r.rule(rule, "Provision: ctx.LoadModule on a field that holds a single optional module (json.RawMessage) is called only under a test that the field is not nil/empty - a configuration that leaves the module out provisions with the default", 1)
+	n := 0
+	for _, fn := range c.Funcs {
+		if fn.Pkg == nil || len(fn.Blocks) == 0 {
+			continue
+		}
+		for _, ci := range callsIn(fn) {
+			if !strings.HasSuffix(calleeID(ci), "caddy/v2.Context).LoadModule") || len(ci.Common().Args) < 3 {
+				continue
+			}
+			fieldName, ok := constString(ci.Common().Args[2])
+			if !ok {
+				continue
+			}
+			obj := ci.Common().Args[1]
+			if mi, isMI := obj.(*ssa.MakeInterface); isMI {
+				obj = mi.X
+			}
+			st, isStruct := deref(obj.Type()).Underlying().(*types.Struct)
+			if !isStruct {
+				continue
+			}
+			isRaw := false
+			for i := 0; i < st.NumFields(); i++ {
+				if st.Field(i).Name() == fieldName && typeStr(st.Field(i).Type()) == "encoding/json.RawMessage" {
+					isRaw = true
+				}
+			}
+			if !isRaw {
+				continue // a list or map of modules: an empty one loads as an empty one
+			}
+			n++
+			guarded := false
+			for _, cd := range edgeConds(ci.Block()) {
+				v, isNeq, isNil := nilCheck(cd.V)
+				if isNil {
+					if ld, isLd := v.(*ssa.UnOp); isLd && ld.Op == token.MUL {
+						if _, _, f, okf := fieldAddr(ld.X); okf && f == fieldName && cd.Truth == isNeq {
+							guarded = true
+						}
+					}
+					continue
+				}
+				// len(x.FieldRaw) > 0 / != 0
+				if bo, isBO := cd.V.(*ssa.BinOp); isBO {
+					for _, side := range []ssa.Value{bo.X, bo.Y} {
+						if call, isCall := side.(*ssa.Call); isCall && calleeID(call) == "builtin len" {
+							if ld, isLd := call.Call.Args[0].(*ssa.UnOp); isLd && ld.Op == token.MUL {
+								if _, _, f, okf := fieldAddr(ld.X); okf && f == fieldName {
+									if (cd.Truth && (bo.Op == token.GTR || bo.Op == token.NEQ || bo.Op == token.LSS)) || (!cd.Truth && (bo.Op == token.EQL || bo.Op == token.LEQ || bo.Op == token.GEQ)) {
+										guarded = true
+									}
+								}
+							}
+						}
+					}
+				}
+			}
+			r.check(guarded, rule, fname(fn), "LoadModule "+fieldName, c.ipos(ci), "only where the field is set", "LoadModule(…, \""+fieldName+"\") is called without a test that the field is set: for a configuration that names no module there (the Caddyfile without the option, the default documented) caddy fails with 'unexpected end of JSON input' and the configuration does not provision")
+		}
+	}
+	if n == 0 {
+		r.bad(rule, "modules", "LoadModule of a single module", "-", "no such call found")
 	}
 }
